@@ -10,6 +10,7 @@ from .. import explore, universe, observe
 from ..runner import h
 
 PROPERTY = "C08"
+HASHSEED_SLICE = True
 T = "\t".join
 
 
@@ -182,6 +183,8 @@ def run(ctx):
   else:
     plan = [("c08.g1", 4), ("c08.g2", 4), ("c08.g1open", 4), ("c08.g2open", 4),
             ("c08.g1v3", 3)]
+  if ctx.slice:
+    plan = [(n, max(2, d - 2)) for n, d in plan[:2]]
   done = {}
   for name, d in plan:
     done[name] = explore.bfs(ctx, explore.SPECS[name], d)[0]
